@@ -235,6 +235,20 @@ for bad, line in (('unresolvable', 'nosuch.test'), ('refused', 'r.test'), ('unre
         for h in ('ok1.test', 'ok2.test'):
             if not any(('(gen) target: %%s' %% h) in b.split('\n') for b in blocks):
                 fail(dict(inp, host=h), 'no report for the healthy target', 'one result block per target', 'bad-line-lost-report')
+# with a raised minimum level every scanned target still yields one block that names it
+for lvl in ('warn', 'fail'):
+    cases += 1
+    hosts = ['l1.test', 'l2.test', 'l3.test']
+    path = targets_file(hosts)
+    try:
+        net = F.FakeNet({'l1.test': mk('clean'), 'l2.test': mk('cbc-etm'), 'l3.test': mk('legacy-unknown')})
+        st, out = F.run_main(['-n', '--skip-rate-test', '-l', lvl, '-T', path, '--threads', '1'], net)
+    finally:
+        os.unlink(path)
+    blocks = split_blocks(out)
+    named = [h for h in hosts if any(('(gen) target: %%s' %% h) in b.split('\n') for b in blocks)]
+    if len(blocks) != 3 or named != hosts:
+        fail({'targets': hosts, 'level': lvl}, {'blocks': len(blocks), 'blocks naming their target': named}, {'blocks': 3, 'named': hosts}, 'level-hides-target')
 # the run's status is the highest-ranked target status, whatever the order of the targets
 mix = ['clean', 'cbc-etm', 'legacy-unknown', 'refused']
 for r in (2, 3):
